@@ -256,6 +256,70 @@ func emitEffects(b *strings.Builder, pkgs []*pkgInfo) {
 			return true
 		})
 	}
+	// every use of the backing store on a read-only path that is not a positioned read: the store
+	// (a field of interface type io.ReaderAt / sif.ReadWriter reached from a Descriptor or
+	// FileImage) may be the receiver of ReadAt, the source of io.NewSectionReader, or be copied
+	// into a Descriptor; a type assertion, any other method call, or handing it to anything else
+	// can move the shared position or write
+	var storeUses, storeOK []string
+	for _, fo := range fos {
+		n := nodes[fo]
+		var stack []ast.Node
+		ast.Inspect(n.decl.Body, func(x ast.Node) bool {
+			if x == nil {
+				stack = stack[:len(stack)-1]
+				return true
+			}
+			stack = append(stack, x)
+			se, ok := x.(*ast.SelectorExpr)
+			if !ok || !isStoreField(n.p, se) {
+				return true
+			}
+			var parent, grand ast.Node
+			if len(stack) >= 2 {
+				parent = stack[len(stack)-2]
+			}
+			if len(stack) >= 3 {
+				grand = stack[len(stack)-3]
+			}
+			okUse := false
+			switch pn := parent.(type) {
+			case *ast.SelectorExpr: // store.ReadAt(...)
+				if pn.X == se && pn.Sel.Name == "ReadAt" {
+					if c, ok := grand.(*ast.CallExpr); ok && c.Fun == pn {
+						okUse = true
+					}
+				}
+			case *ast.CallExpr: // io.NewSectionReader(store, off, n)
+				if f, ok := pn.Fun.(*ast.SelectorExpr); ok && f.Sel.Name == "NewSectionReader" && len(pn.Args) > 0 && pn.Args[0] == se {
+					if id, ok := f.X.(*ast.Ident); ok {
+						if pk, ok := n.p.info.Uses[id].(*types.PkgName); ok && pk.Imported().Path() == "io" {
+							okUse = true
+						}
+					}
+				}
+			case *ast.KeyValueExpr: // Descriptor{r: f.rw}
+				if pn.Value == se {
+					if cl, ok := grand.(*ast.CompositeLit); ok {
+						if tv, ok := n.p.info.Types[cl]; ok {
+							if nt, ok := tv.Type.(*types.Named); ok && nt.Obj().Name() == "Descriptor" {
+								okUse = true
+							}
+						}
+					}
+				}
+			}
+			if okUse {
+				storeOK = append(storeOK, fmt.Sprintf("(\"%s\", \"%s\")", n.name, selPath(se)))
+			}
+			if !okUse {
+				storeUses = append(storeUses, fmt.Sprintf("(\"%s\", \"%s in %T\")", n.name, selPath(se), parent))
+			}
+			return true
+		})
+	}
+	fmt.Fprintf(b, "def storeUses : List (String × String) := [%s]\n", strings.Join(storeUses, ", "))
+	fmt.Fprintf(b, "def storePositionedReads : List (String × String) := [%s]\n", strings.Join(storeOK, ", "))
 	fmt.Fprintf(b, "def readOnlyReach : List String := [%s]\n", strings.Join(rnames, ", "))
 	fmt.Fprintf(b, "def sharedWrites : List (String × String) := [%s]\n", strings.Join(writes, ", "))
 }
@@ -263,4 +327,27 @@ func emitEffects(b *strings.Builder, pkgs []*pkgInfo) {
 func shortPkg(p string) string {
 	i := strings.LastIndex(p, "/")
 	return p[i+1:]
+}
+
+// isStoreField: a field selection whose static type is the backing store's interface type
+// (io.ReaderAt or the package's ReadWriter) on a value of a pkg/sif struct type.
+func isStoreField(p *pkgInfo, se *ast.SelectorExpr) bool {
+	sel, ok := p.info.Selections[se]
+	if !ok || sel.Kind() != types.FieldVal {
+		return false
+	}
+	t := sel.Type()
+	nt, ok := t.(*types.Named)
+	if !ok {
+		return false
+	}
+	if _, isIface := nt.Underlying().(*types.Interface); !isIface {
+		return false
+	}
+	name := nt.Obj().Name()
+	pkg := ""
+	if nt.Obj().Pkg() != nil {
+		pkg = nt.Obj().Pkg().Path()
+	}
+	return (pkg == "io" && name == "ReaderAt") || (strings.HasSuffix(pkg, "pkg/sif") && name == "ReadWriter")
 }
